@@ -4,6 +4,7 @@
    (Uniqueness of the decomposition for simple spectra is not proved: partial in that sense.) *)
 From Coq Require Import ZArith List Bool Permutation Reals.
 From XV Require Import Base.Scalar Base.Mat Base.RInst Model.Eof Proofs.C07_proofs.
+From XV Require Model.Pipe Gen.T7pipe Proofs.Pipe_proofs Proofs.Pipe_tie.
 Import ListNotations.
 
 Theorem C07_col_perm_admissible : forall (F : Type) (K : Ops F), FieldLaws K ->
@@ -43,3 +44,24 @@ Theorem C07_sign_rule_perm : forall (l1 l2 : list R), l1 <> [] -> Permutation l1
   sign_rule OR (vmax OR l1) (vmin OR l1) = sign_rule OR (vmax OR l2) (vmin OR l2).
 Proof. exact sign_rule_perm. Qed.
 Print Assumptions C07_sign_rule_perm.
+
+(* the renaming stage (numbering rule regenerated from the source): the i-th sample dimension named by the user gets
+   the number start + i whatever the dimension order of the item, so all items of a list agree on the names of the
+   shared sample dimensions and are stacked in the same sample order *)
+Theorem C07_items_agree_on_sample_names : forall (start : nat) (sample x1 x2 : list nat), NoDup sample ->
+  Pipe.names_after (Pipe.dim_mapping T7pipe.renamer_rule start sample x1) sample =
+  Pipe.names_after (Pipe.dim_mapping T7pipe.renamer_rule start sample x2) sample.
+Proof. exact Pipe_proofs.items_agree_on_sample_names. Qed.
+Print Assumptions C07_items_agree_on_sample_names.
+
+Theorem C07_sample_names_in_user_order : forall (start : nat) (sample xdims : list nat), NoDup sample ->
+  Pipe.names_after (Pipe.dim_mapping T7pipe.renamer_rule start sample xdims) sample = map Some (seq start (length sample)).
+Proof. exact Pipe_proofs.sample_names_in_user_order. Qed.
+Print Assumptions C07_sample_names_in_user_order.
+
+(* numbering by the item's own dimension order instead: two items laid out differently disagree *)
+Theorem C07_numbering_by_data_order_refuted :
+  Pipe.names_after (Pipe.dim_mapping Pipe.ByData 0 [0; 1]%nat [0; 1; 2]%nat) [0; 1]%nat = [Some 0; Some 1]%nat /\
+  Pipe.names_after (Pipe.dim_mapping Pipe.ByData 0 [0; 1]%nat [1; 0; 3]%nat) [0; 1]%nat = [Some 1; Some 0]%nat.
+Proof. exact Pipe_proofs.by_data_order_refuted. Qed.
+Print Assumptions C07_numbering_by_data_order_refuted.
